@@ -520,6 +520,7 @@ func mavenTraits(w *World, name string) []string {
 	versions := map[string]bool{}
 	inFile := map[int]bool{}
 	files := 0
+	inProfile, outsideProfile := false, false
 	props := w.Manifest.props()
 	for i, pom := range []*Pom{w.Manifest.Pom, w.Manifest.Parent} {
 		if pom == nil {
@@ -548,6 +549,11 @@ func mavenTraits(w *World, name string) []string {
 					}
 				}
 				decls++
+				if li >= 2 {
+					inProfile = true
+				} else {
+					outsideProfile = true
+				}
 				versions[interpolate(d.V, props)] = true
 				if !inFile[i] {
 					inFile[i] = true
@@ -601,6 +607,10 @@ func mavenTraits(w *World, name string) []string {
 				}
 			}
 		}
+	}
+	if inProfile && outsideProfile {
+		// Update identifies declarations by groupId:artifactId only (known finding R-F4)
+		f = append(f, "declared-in-profile-and-main")
 	}
 	if decls > 1 {
 		// declared more than once: at different versions (the library's RequirementKey collision,
